@@ -82,18 +82,20 @@ func (m *PositionMapper) ByteToLSP(byteOffset int) protocol.Position {
 	}
 }
 
+// LineUTF16Len is the length of the line's content: the "\r" of a CRLF line
+// ending belongs to the terminator.
 func (m *PositionMapper) LineUTF16Len(line int) int {
 	if line < 0 || line >= len(m.lines) {
 		return 0
 	}
-	return UTF16Len(m.lines[line])
+	return UTF16Len(strings.TrimSuffix(m.lines[line], "\r"))
 }
 
 func (m *PositionMapper) LineRuneLen(line int) int {
 	if line < 0 || line >= len(m.lines) {
 		return 0
 	}
-	return utf8.RuneCountInString(m.lines[line])
+	return utf8.RuneCountInString(strings.TrimSuffix(m.lines[line], "\r"))
 }
 
 func (m *PositionMapper) ApplyChange(r protocol.Range, text string) string {
